@@ -82,6 +82,7 @@ func newGoBackNConn(ctx context.Context, cfg *config,
 	plog := log.WithPrefix(fmt.Sprintf("(%s)", loggerPrefix))
 
 	timeoutManager := NewTimeOutManager(plog, cfg.timeoutOptions...)
+	vtrace(timeoutManager, "new:"+loggerPrefix, int(cfg.n))
 
 	g := &GoBackNConn{
 		cfg:               cfg,
@@ -124,6 +125,7 @@ func (g *GoBackNConn) SetRecvTimeout(timeout time.Duration) {
 // setN sets the current N to use. This _must_ be set before the handshake is
 // completed.
 func (g *GoBackNConn) setN(n uint8) {
+	vtrace(g.timeoutManager, "setN", int(n))
 	g.cfg.n = n
 	g.cfg.s = n + 1
 	g.recvDataChan = make(chan *PacketData, n)
@@ -294,6 +296,7 @@ func (g *GoBackNConn) Close() error {
 		// We close the quit channel to stop the usual operations of the
 		// server.
 		close(g.quit)
+		vtrace(g.timeoutManager, "closeQuit")
 
 		// Try send a FIN message to the peer if they have not already
 		// done so.
@@ -330,6 +333,7 @@ func (g *GoBackNConn) Close() error {
 		}
 
 		g.log.Debugf("GBN is closed")
+		vtrace(g.timeoutManager, "closeDone")
 	})
 
 	return nil
@@ -420,6 +424,7 @@ func (g *GoBackNConn) sendPacketsForever() error {
 			// prioritized over the ping ticker.
 			select {
 			case <-g.pongTicker.Ticks():
+				vtrace(g.timeoutManager, "pongTimeout", 1)
 				return errKeepaliveTimeout
 			default:
 			}
@@ -432,12 +437,14 @@ func (g *GoBackNConn) sendPacketsForever() error {
 			g.pingTicker.Reset()
 
 			g.log.Tracef("Sending a PING packet")
+			vtrace(g.timeoutManager, "ping")
 
 			packet = &PacketData{
 				IsPing: true,
 			}
 
 		case <-g.pongTicker.Ticks():
+			vtrace(g.timeoutManager, "pongTimeout", 0)
 			return errKeepaliveTimeout
 
 		case packet = <-g.sendDataChan:
@@ -460,6 +467,7 @@ func (g *GoBackNConn) sendPacketsForever() error {
 			}
 
 			g.log.Tracef("The queue is full.")
+			vtrace(g.timeoutManager, "full")
 
 			// The queue is full. We wait for a ACKs to arrive or
 			// resend the queue after a timeout.
@@ -512,6 +520,7 @@ func (g *GoBackNConn) receivePacketsForever() error { // nolint:gocyclo
 
 		// Notify the timeout manager that a message has been received.
 		g.timeoutManager.Received(msg)
+		vtrace(g.timeoutManager, "rx", int(b[0]))
 
 		// Reset the ping & pong timer if any packet is received.
 		// If ping/pong is disabled, this is a no-op.
@@ -543,6 +552,7 @@ func (g *GoBackNConn) receivePacketsForever() error { // nolint:gocyclo
 				}
 
 				g.recvSeq = (g.recvSeq + 1) % g.cfg.s
+				vtrace(g.timeoutManager, "rseq", int(g.recvSeq))
 
 				// If the packet was a ping, then there is no
 				// data to return to the above layer.
@@ -585,6 +595,7 @@ func (g *GoBackNConn) receivePacketsForever() error { // nolint:gocyclo
 
 				if lastNackSeq == g.recvSeq && recentlySent {
 					g.log.Tracef("Recently sent NACK")
+					vtrace(g.timeoutManager, "nackSupp", int(g.recvSeq))
 
 					continue
 				}
@@ -655,6 +666,7 @@ func (g *GoBackNConn) receivePacketsForever() error { // nolint:gocyclo
 			// A FIN packet indicates that the peer would like to
 			// close the connection.
 			g.log.Tracef("Received a FIN packet")
+			vtrace(g.timeoutManager, "fin")
 
 			close(g.remoteClosed)
 
